@@ -156,8 +156,52 @@ class CallMixin:
             return self.call_closure(f, args, kwargs, st)
         raise Unsupported(f"call of {f!r}")
 
+    def module_lambda_table(self, name):
+        """a module-level `name = {key: lambda ...}` table: the lambdas' ASTs from the real source"""
+        import inspect
+        cache = _TABLE_CACHE.setdefault(inspect.getsourcefile(self.module), {})
+        if name in cache:
+            return cache[name]
+        tree = ast.parse(open(inspect.getsourcefile(self.module)).read())
+        for n in tree.body:
+            tgt = n.targets[0] if isinstance(n, ast.Assign) else (n.target if isinstance(n, ast.AnnAssign) else None)
+            if isinstance(tgt, ast.Name) and tgt.id == name and isinstance(n.value, ast.Dict):
+                out = {}
+                for k, v in zip(n.value.keys, n.value.values):
+                    if not (isinstance(k, ast.Constant) and isinstance(v, ast.Lambda)):
+                        raise Unsupported(f"{name}: not a table of lambdas")
+                    out[k.value] = FuncV(v, {}, f"{name}[{k.value!r}]")
+                cache[name] = out
+                return out
+        raise Unsupported(f"module table {name} not found")
+
+    def inline_function(self, key):
+        """a tiny pure helper executed through its real AST (still the code that runs), not through a contract"""
+        from .verify import load_module, find_function
+        if key in _INLINE_CACHE:
+            return _INLINE_CACHE[key]
+        modname, qual = key.split(":")
+        mod = load_module(modname)
+        fn, _ = find_function(mod, qual)
+        _INLINE_CACHE[key] = FuncV(fn, {}, qual)
+        return _INLINE_CACHE[key]
+
     def call_closure(self, f, args, kwargs, st):
         node = f.node
+        if isinstance(node, ast.FunctionDef):
+            params = [a.arg for a in node.args.args]
+            if len(params) != len(args) or kwargs:
+                raise Unsupported("inlined helper arity")
+            saved = st.env
+            st.env = dict(f.env)
+            st.env.update(zip(params, args))
+            try:
+                outs = self.exec_block(node.body, st)
+            finally:
+                env_after, st.env = st.env, saved
+            if len(outs) != 1 or outs[0][1][0] != "return" or outs[0][0] is not st:
+                raise Unsupported(f"inlined helper {f.name} is not a single straight-line return")
+            return outs[0][1][1]
         if not isinstance(node, ast.Lambda):
             raise Unsupported(f"call of nested function {f.name}")
         params = [a.arg for a in node.args.args]
@@ -181,10 +225,26 @@ class CallMixin:
             return self.mk_fmtstr(args, st)
         if name in ("int", "str", "bool", "bytes"):
             return self.call_builtin(name, args, kwargs, st, None)
-        if name == "FrozenAttributes":
+        if name in ("FrozenAttributes", "dict"):
             if len(args) == 1 and isinstance(args[0], Sym) and args[0].tag == "atts":
                 return args[0]
-            raise Unsupported("FrozenAttributes(...) of a non-atts value")
+            if not args:
+                return st.alloc(DictV(dict(kwargs)))
+            src = args[0]
+            from .loops import GenV
+            if isinstance(src, Ref) and isinstance(st.deref(src), DictV):
+                d = dict(st.deref(src).items)
+                d.update(kwargs)
+                return st.alloc(DictV(d))
+            if isinstance(src, Ref) and isinstance(st.deref(src), ListV) and st.deref(src).items is not None:
+                d = {}
+                for kv in st.deref(src).items:
+                    if not (isinstance(kv, tuple) and len(kv) == 2 and isinstance(kv[0], (str, int, bytes))):
+                        raise Unsupported("dict() of non-pair items")
+                    d[kv[0]] = kv[1]
+                d.update(kwargs)
+                return st.alloc(DictV(d))
+            raise Unsupported(f"{name}(...) of {src!r}")
         c = self.find_method_contract(name, "__init__")
         if c is not None:
             return self.call_contract(c, args, kwargs, st)
@@ -436,6 +496,20 @@ class CallMixin:
             return tuple(st.deref(v).items)
         raise Unsupported("tuple(...)")
 
+    def b_chain(self, args, kwargs, st):
+        out = []
+        for a in args:
+            if isinstance(a, tuple):
+                out.extend(a)
+            elif isinstance(a, Ref) and isinstance(st.deref(a), ListV) and st.deref(a).items is not None:
+                out.extend(st.deref(a).items)
+            else:
+                raise Unsupported("chain over a symbolic iterable")
+        return st.alloc(ListV(items=out))
+
+    def b_dict(self, args, kwargs, st):
+        return self.construct("dict", args, kwargs, st)
+
     def b_range(self, args, kwargs, st):
         return ("range",) + tuple(args)
 
@@ -540,6 +614,17 @@ class CallMixin:
                     raise PyRaise("UnicodeDecodeError")
         if name == "join":
             return self.fold_call("join", [args[0], recv], st)
+        if name == "format" and isinstance(recv, str) and not kwargs and recv.count("{}") == len(args) \
+                and "{" not in recv.replace("{}", "") and "}" not in recv.replace("{}", ""):
+            parts = recv.split("{}")
+            acc = parts[0]
+            for a, lit in zip(args, parts[1:]):
+                if isinstance(a, int) and not isinstance(a, bool):
+                    a = str(a)
+                if not (isinstance(a, str) or (isinstance(a, Sym) and a.tag == "str")):
+                    raise Unsupported("str.format argument is not a string")
+                acc = self.binop("Add", self.binop("Add", acc, a, st), lit, st)
+            return acc
         if name == "format":
             return OpaqueV("message")
         raise Unsupported(f"str.{name} on {recv!r}")
@@ -572,6 +657,11 @@ class CallMixin:
     def bind_args(self, c, args, kwargs):
         params = c.params
         bound = {}
+        if params and params[-1].startswith("*"):
+            fixed = params[:-1]
+            bound[params[-1][1:]] = tuple(args[len(fixed):])
+            args = args[:len(fixed)]
+            params = fixed
         if len(args) > len(params):
             raise Unsupported(f"too many arguments for {c.key}")
         for p, a in zip(params, args):
@@ -652,5 +742,7 @@ class CallMixin:
         return [(st, oc)]
 
 
+_TABLE_CACHE = {}
+_INLINE_CACHE = {}
 HASHSTR = z3.Function("HASHSTR", T.SI, T.I)
 HASHPAIR = z3.Function("HASHPAIR", T.SI, T.Atts, T.I)
